@@ -98,6 +98,9 @@ pub enum Abort {
     Deadlock,
     Horizon,
     Diverged,
+    /// A worker left its loop by unwinding (a panic in the walker or in the
+    /// caller's visitor) while the walk was scheduled.
+    Panicked,
 }
 
 /// What to replay.
@@ -436,6 +439,38 @@ fn wait_for_turn(mut g: MutexGuard<'static, Option<State>>, w: usize) {
             }
         }
         g = CV.wait(g).unwrap_or_else(|e| e.into_inner());
+    }
+}
+
+/// Held by a worker for the duration of `Worker::run`. If the worker leaves
+/// by unwinding (a panic in the walker itself or in the caller's visitor)
+/// while a scheduler is installed, every other worker is parked on the
+/// scheduler's condition variable and would wait for its turn forever; so
+/// the schedule is aborted, which makes them unwind as well.
+pub(crate) struct RunGuard(());
+
+pub(crate) fn run_guard() -> RunGuard {
+    RunGuard(())
+}
+
+impl Drop for RunGuard {
+    fn drop(&mut self) {
+        if !std::thread::panicking() || !ACTIVE.load(Ordering::Relaxed) {
+            return;
+        }
+        // A worker unwinding because the schedule was aborted has already
+        // detached itself.
+        let Some(w) = current_worker() else { return };
+        WORKER.with(|c| c.set(None));
+        let mut g = lock();
+        if let Some(st) = g.as_mut() {
+            if w < st.status.len() {
+                st.status[w] = Status::Exited;
+            }
+            st.abort(Abort::Panicked);
+        }
+        drop(g);
+        CV.notify_all();
     }
 }
 
